@@ -13,6 +13,7 @@ import (
 	"strings"
 	"time"
 	"unicode"
+	"unicode/utf8"
 
 	"github.com/osteele/liquid/values"
 	"github.com/osteele/tuesday"
@@ -155,10 +156,12 @@ func AddStandardFilters(fd FilterDictionary) { //nolint: gocyclo
 		return s + suffix
 	})
 	fd.AddFilter("capitalize", func(s, suffix string) string {
-		if len(s) == 0 {
+		// upper-case the first character, which may be longer than one byte
+		r, size := utf8.DecodeRuneInString(s)
+		if size == 0 || (r == utf8.RuneError && size == 1) {
 			return s
 		}
-		return strings.ToUpper(s[:1]) + s[1:]
+		return string(unicode.ToUpper(r)) + s[size:]
 	})
 	fd.AddFilter("downcase", func(s, suffix string) string {
 		return strings.ToLower(s)
